@@ -29,6 +29,8 @@ FILES = {
     "npstructures/npdataclasses.py": ["C18"],
     "npstructures/util.py": ["C14", "C15", "C16", "C17", "C07"],
 }
+if os.environ.get("MUTSTUDY_FILES"):                 # JSON {module: [checks in order]}: restrict / reorder
+    FILES = json.loads(os.environ["MUTSTUDY_FILES"])
 CMP = {ast.Lt: ast.LtE, ast.LtE: ast.Lt, ast.Gt: ast.GtE, ast.GtE: ast.Gt, ast.Eq: ast.NotEq, ast.NotEq: ast.Eq}
 BIN = {ast.Add: ast.Sub, ast.Sub: ast.Add, ast.Mult: ast.FloorDiv, ast.FloorDiv: ast.Mult}
 SWAP = {"minimum": "maximum", "maximum": "minimum", "min": "max", "max": "min", "any": "all", "all": "any"}
